@@ -3830,6 +3830,12 @@ PPL::Polyhedron::topological_closure_assign() {
   if (marked_empty() || space_dim == 0) {
     return;
   }
+  // Emptiness has to be detected beforehand: relaxing the strict
+  // inequalities of an inconsistent constraint system (e.g., x > 0, x < 0)
+  // could make it consistent.
+  if (is_empty()) {
+    return;
+  }
 
   // The computation can be done using constraints or generators.
   // If we use constraints, we will change them, so that having pending
